@@ -317,6 +317,37 @@ func (r *FnRun) callContract(st *State, fr *frame, instr ssa.Instruction, f *ssa
 	pkg := pkgOfFn(f)
 	vars := bindNames(fc, f, f.Signature, f.Signature.Recv() != nil, args)
 	r.calleesByContract[callee] = true
+	// ghost parameters: witnesses supplied by the caller's contract, else unconstrained
+	for _, gp := range fc.GhostParams {
+		var w *V
+		if fr.fc != nil {
+			for _, g := range fr.fc.Ghosts {
+				if g.Anchor == "witness" && g.Callee == callee && g.N == ord {
+					if e, ok := g.With[gp.Name]; ok {
+						ctx := &EvalCtx{run: r, st: st, old: r.entry, vars: map[string]*V{}, oldVars: st.params, fn: fr.fn, pkg: fr.fn.Pkg.Pkg, cs: fr.cs, what: "ghost witness"}
+						for k, v := range st.ghostParams {
+							ctx.vars[k] = v
+						}
+						v, err := safeVal(ctx, e, fr.fc.File, g.Line)
+						if err != nil {
+							r.errs = append(r.errs, err.Error())
+						} else {
+							w = v
+						}
+					}
+				}
+			}
+		}
+		if w == nil {
+			t := resolveTypeIn(pkg, gp.Type)
+			if t == nil {
+				r.errs = append(r.errs, fmt.Sprintf("%s: unknown ghostparam type %s", callee, gp.Type))
+				continue
+			}
+			w = st.sym("ghost."+gp.Name, t)
+		}
+		vars[gp.Name] = w
+	}
 	pre := st.clone()
 	for _, c := range fc.Clauses {
 		if c.Kind == "let" {
@@ -367,7 +398,7 @@ func (r *FnRun) ghostAfterCall(st *State, fr *frame, callee string, ord int) {
 		return
 	}
 	for _, g := range fr.fc.Ghosts {
-		if g.Callee != callee || g.N != ord {
+		if g.Anchor != "aftercall" || g.Callee != callee || g.N != ord {
 			continue
 		}
 		pre := st.clone()
